@@ -370,6 +370,7 @@ func c06Run(env *core.Env, idx int) *core.CaseResult {
 	}
 	s.memKB = []int{256, 512, 1024, 4096}[r.Intn(4)]
 	apiVals := r.Intn(5) < 2
+	apiNoNull := apiVals && r.Intn(2) == 0 // API-only values (negatives, -0.0, denormals, ...) without NULLs: NULL in an indexed column is a listed finding that would cover them
 	s.sentinel = r.Intn(6) == 0
 	s.longIdx = long && r.Intn(3) == 0
 	nRows := []int{0, 1, 2, 3, 6, 12, 25, 40, 80, 200}[r.Intn(10)]
@@ -400,6 +401,9 @@ func c06Run(env *core.Env, idx int) *core.CaseResult {
 				continue
 			}
 			v := gen.Value(r, c.K, apiVals, long)
+			for apiNoNull && v.Null {
+				v = gen.Value(r, c.K, apiVals, long)
+			}
 			if s.sentinel && r.Intn(5) == 0 {
 				if sv, ok := gen.SentinelValue(r, c.K); ok {
 					v = sv
